@@ -1635,6 +1635,13 @@ class GateauxDerivativeRuleset(GenericDerivativeRuleset):
 
     # -- Handlers for BaseForm objects -- #
 
+    def _direction_arguments(self):
+        """The directions that are arguments: the new slots of a differentiated zero form.
+
+        A direction may also be a coefficient, which adds no argument.
+        """
+        return tuple(v for v in self._v if isinstance(v, BaseArgument))
+
     @process.register(Cofunction)
     def _(self, o: Cofunction) -> Expr:
         """Differentiate a cofunction."""
@@ -1644,7 +1651,7 @@ class GateauxDerivativeRuleset(GenericDerivativeRuleset):
         dc = self._process_coefficient(o)  # type: ignore
         if dc == 0:
             # Convert ufl.Zero into ZeroBaseForm
-            return ZeroBaseForm(o.arguments() + self._v)  # type: ignore
+            return ZeroBaseForm(o.arguments() + self._direction_arguments())  # type: ignore
         return dc
 
     @process.register(Coargument)
@@ -1654,7 +1661,7 @@ class GateauxDerivativeRuleset(GenericDerivativeRuleset):
         dc = self._process_argument(o)
         if dc == 0:
             # Convert ufl.Zero into ZeroBaseForm
-            return ZeroBaseForm(o.arguments() + self._v)  # type: ignore
+            return ZeroBaseForm(o.arguments() + self._direction_arguments())  # type: ignore
         return dc
 
     @process.register(Matrix)  # type: ignore
@@ -1663,14 +1670,14 @@ class GateauxDerivativeRuleset(GenericDerivativeRuleset):
         # Matrix rule: D_w[v](M) = v if M == w else 0
         # We can't differentiate wrt a matrix so always return zero in
         # the appropriate space
-        return ZeroBaseForm(M.arguments() + self._v)
+        return ZeroBaseForm(M.arguments() + self._direction_arguments())
 
     @process.register(ZeroBaseForm)  # type: ignore
     def _(self, o: BaseForm) -> BaseForm:
         """Differentiate a zero_base_form."""
         # ZeroBaseForm is idempotent under differentiation: it stays zero,
         # gaining the new derivative direction as an extra argument.
-        return ZeroBaseForm(o.arguments() + self._v)
+        return ZeroBaseForm(o.arguments() + self._direction_arguments())
 
 
 class BaseFormOperatorDerivativeRuleset(GateauxDerivativeRuleset):
@@ -1750,7 +1757,7 @@ class BaseFormOperatorDerivativeRuleset(GateauxDerivativeRuleset):
             # i_op doesn't depend on w:
             #  -> It also covers the Hessian case since Interpolate is linear,
             #     e.g. D_w[v](D_w[v](i_op(w, v*))) = D_w[v](i_op(v, v*)) = 0 (since w not found).
-            return ZeroBaseForm(i_op.arguments() + self._v)  # type: ignore
+            return ZeroBaseForm(i_op.arguments() + self._direction_arguments())  # type: ignore
         return i_op._ufl_expr_reconstruct_(expr=dw)
 
     @process.register(ExternalOperator)
